@@ -70,7 +70,9 @@ def stream_empty(chk, i, rng):
     if np.any(gr2[:, K] != 0):
         chk.fail(f"empty:grad-nonzero:{obj}", f"{label}: an empty cluster received a non-zero gradient", replay, layer="L3")
     # the code scores the clipped matrix: an empty column contributes terms of order K*eps*|ln eps| at most
-    if abs(s - s2) > 1e-8 * max(1.0, abs(s)):
+    # the MMD is the square root of a difference that may cancel to rounding level (one cluster, sample-independent rows)
+    mmd_abs = 2e-7 * np.sqrt(max(1.0, float(np.abs(A).max()))) if obj == "mmd" else 0.0
+    if abs(s - s2) > 1e-8 * max(1.0, abs(s)) + mmd_abs:
         chk.fail(f"empty:score:{obj}:{'ovo' if ovo else 'ova'}", f"{label}: score {s!r} becomes {s2!r} after adding an empty cluster", replay, layer="L3")
     if not np.isfinite(s2) or not np.isfinite(gr2).all():
         chk.fail(f"empty:nonfinite:{obj}", f"{label}: non-finite result with an empty cluster", replay, layer="L3")
